@@ -224,6 +224,95 @@ func kinds() []kind {
 				return err, strings.Join(s, " ")
 			}}
 		}},
+		// extensions the bundled server does not implement: their data responses are routed by the
+		// same dispatcher and can only be checked on the client side
+		{name: "SORT", class: "sort", lines: 1, data: []string{"* SORT 3 1 2"}, want: "3 1 2", issue: func(c *imapclient.Client) handle {
+			cmd := c.Sort(&imapclient.SortOptions{SearchCriteria: &imap.SearchCriteria{}, SortCriteria: []imapclient.SortCriterion{{Key: imapclient.SortKeyDate, Reverse: true}}})
+			return handle{func() (error, string) {
+				n, err := cmd.Wait()
+				return err, strings.Trim(fmt.Sprint(n), "[]")
+			}}
+		}},
+		{name: "UID SORT", class: "sort", dupOf: "SORT", lines: 1, data: []string{"* SORT 9"}, want: "9", issue: func(c *imapclient.Client) handle {
+			cmd := c.UIDSort(&imapclient.SortOptions{SearchCriteria: &imap.SearchCriteria{}, SortCriteria: []imapclient.SortCriterion{{Key: imapclient.SortKeySize}}})
+			return handle{func() (error, string) {
+				n, err := cmd.Wait()
+				return err, strings.Trim(fmt.Sprint(n), "[]")
+			}}
+		}},
+		{name: "THREAD", class: "thread", lines: 1, data: []string{"* THREAD (1 2)(3 (4)(5))"}, want: "[1 2];[3[4][5]]", issue: func(c *imapclient.Client) handle {
+			cmd := c.Thread(&imapclient.ThreadOptions{Algorithm: imap.ThreadReferences, SearchCriteria: &imap.SearchCriteria{}})
+			return handle{func() (error, string) {
+				d, err := cmd.Wait()
+				var render func(t imapclient.ThreadData) string
+				render = func(t imapclient.ThreadData) string {
+					r := "[" + strings.Trim(fmt.Sprint(t.Chain), "[]")
+					for _, sub := range t.SubThreads {
+						r += render(sub)
+					}
+					return r + "]"
+				}
+				var parts []string
+				for _, t := range d {
+					parts = append(parts, render(t))
+				}
+				return err, strings.Join(parts, ";")
+			}}
+		}},
+		{name: "GETQUOTA", class: "quota", lines: 1, data: []string{"* QUOTA r1 (STORAGE 10 512)"}, want: "r1 STORAGE=10/512", issue: func(c *imapclient.Client) handle {
+			cmd := c.GetQuota("r1")
+			return handle{func() (error, string) {
+				d, err := cmd.Wait()
+				if d == nil {
+					return err, ""
+				}
+				return err, quotaStr(*d)
+			}}
+		}},
+		{name: "GETQUOTAROOT", class: "quota", dupOf: "GETQUOTA", lines: 1, data: []string{"* QUOTAROOT INBOX r2", "* QUOTA r2 (MESSAGE 1 2)"}, want: "r2 MESSAGE=1/2", issue: func(c *imapclient.Client) handle {
+			cmd := c.GetQuotaRoot("INBOX")
+			return handle{func() (error, string) {
+				d, err := cmd.Wait()
+				var parts []string
+				for _, q := range d {
+					parts = append(parts, quotaStr(q))
+				}
+				return err, strings.Join(parts, ";")
+			}}
+		}},
+		{name: "GETMETADATA", class: "metadata", lines: 1, data: []string{`* METADATA m (/private/comment "x" /shared/comment NIL)`}, want: "m /private/comment=x /shared/comment=<nil>", issue: func(c *imapclient.Client) handle {
+			cmd := c.GetMetadata("m", []string{"/private/comment", "/shared/comment"}, nil)
+			return handle{func() (error, string) {
+				d, err := cmd.Wait()
+				if d == nil || d.Mailbox == "" {
+					return err, ""
+				}
+				var ks []string
+				for k := range d.Entries {
+					ks = append(ks, k)
+				}
+				sort.Strings(ks)
+				r := d.Mailbox
+				for _, k := range ks {
+					v := "<nil>"
+					if d.Entries[k] != nil {
+						v = string(*d.Entries[k])
+					}
+					r += " " + k + "=" + v
+				}
+				return err, r
+			}}
+		}},
+		{name: "NAMESPACE", class: "namespace", lines: 1, data: []string{`* NAMESPACE (("" "/")) NIL (("shared/" "/"))`}, want: "[{ 47}] [] [{shared/ 47}]", issue: func(c *imapclient.Client) handle {
+			cmd := c.Namespace()
+			return handle{func() (error, string) {
+				d, err := cmd.Wait()
+				if d == nil || (d.Personal == nil && d.Shared == nil) {
+					return err, ""
+				}
+				return err, fmt.Sprint(d.Personal, d.Other, d.Shared)
+			}}
+		}},
 		// second commands of an ambiguity class: only issued behind the first one and answered strictly
 		// in issue order (what a server that processes commands sequentially does); routing must be FIFO
 		{name: "LIST#2", class: "list", dupOf: "LIST", lines: 1, data: []string{`* LIST () "/" second`}, want: "second", issue: func(c *imapclient.Client) handle {
@@ -265,6 +354,20 @@ func kinds() []kind {
 			return handle{func() (error, string) { return cmd.Wait(), "" }}
 		}},
 	}
+}
+
+func quotaStr(q imapclient.QuotaData) string {
+	var ks []string
+	for k := range q.Resources {
+		ks = append(ks, string(k))
+	}
+	sort.Strings(ks)
+	r := q.Root
+	for _, k := range ks {
+		v := q.Resources[imap.QuotaResourceType(k)]
+		r += fmt.Sprintf(" %s=%d/%d", k, v.Usage, v.Limit)
+	}
+	return r
 }
 
 func fetchIssue(set imap.NumSet) func(c *imapclient.Client) handle {
@@ -985,7 +1088,7 @@ func main() {
 	run.Set("work_items", int64(len(items)))
 	run.Set("command_kinds", int64(len(ks)))
 	run.Exhaustive = true
-	run.Rule = "scenario = (start state, pipeline of <=2 (3 thorough) pairwise-unambiguous commands from 16 kinds, outcome per command in {OK, OK [code], NO, NO [code], BAD}, one interleaving of all response lines that keeps each command's own lines in order) or (context in {selected, authenticated, during a failing SELECT, during IDLE}, sequence of <=3 (4) unilateral responses from 9); each executed once on the real client (default schedule) with a state/mailbox comparison after every server line and a status/data comparison per command, then a final NOOP. states = scenarios, transitions = scheduling points, traces = executions"
+	run.Rule = "scenario = (start state, pipeline of <=2 (3 thorough) pairwise-unambiguous commands from 32 kinds (NOOP, three STATUS incl. two names differing by case only, LIST, 4 FETCH forms, STORE, SEARCH, ESEARCH, EXPUNGE, SELECT, CAPABILITY, two APPEND forms, COPY, ENABLE, UNSELECT, SORT, THREAD, GETQUOTA, GETMETADATA, NAMESPACE; a second LIST / SEARCH / EXPUNGE / FETCH / UID SORT / GETQUOTAROOT only behind the first of its ambiguity class and answered in issue order), outcome per command in {OK, OK [code], NO, NO [code], BAD}, one interleaving of all response lines that keeps each command's own lines in order) or (context in {selected, authenticated, during a failing SELECT, during IDLE}, sequence of <=3 (4) unilateral responses from 9); each executed once on the real client (default schedule) with a state/mailbox comparison after every server line and a status/data comparison per command, then a final NOOP. states = scenarios, transitions = scheduling points, traces = executions"
 	run.Assume("while a SELECT is in flight the mailbox summary is not compared (the transcript does not determine it)")
 	run.Assume("a failed SELECT in selected state leaves no mailbox selected (RFC 9051 §6.3.2); BYE alone does not change the reported state")
 	run.Finish()
